@@ -1965,6 +1965,9 @@ class Engine:
                 q = f"{obj.ty.name}.{f.attr}"
                 if q in self.contracts:
                     return self.call_contract(self.contracts[q], n, st, None if self.contracts[q].static else obj)
+                hm = self.find_inlinable_method(obj.ty.name, f.attr)
+                if hm is not None:
+                    return self.inline_helper(hm[0], n, st, None if hm[1] else obj)
             raise Unsupported(f"method {key}", n)
         raise Unsupported("call form", n)
 
@@ -2049,11 +2052,32 @@ class Engine:
                     return d
         return None
 
-    def inline_helper(self, fd: ast.FunctionDef, n: ast.Call, st: State) -> V:
+    def find_inlinable_method(self, cls: str, name: str) -> Optional[tuple[ast.FunctionDef, bool]]:
+        """The same for a method of class `cls` in the file being verified: (definition, is_static)."""
+        rel = getattr(self, "cur_relpath", None)
+        if rel is None or rel not in getattr(self, "sources", {}):
+            return None
+        _, mod = self.sources[rel]
+        for c in mod.body:
+            if isinstance(c, ast.ClassDef) and c.name == cls:
+                for d in c.body:
+                    if isinstance(d, ast.FunctionDef) and d.name == name:
+                        decs = [ast.unparse(x) for x in d.decorator_list]
+                        if any(x not in ("staticmethod",) for x in decs):
+                            return None
+                        body = [x for x in d.body if not (isinstance(x, ast.Expr) and isinstance(x.value, ast.Constant))]
+                        if len(body) == 1 and isinstance(body[0], ast.Return) and body[0].value is not None \
+                                and not d.args.vararg and not d.args.kwarg and not d.args.kwonlyargs:
+                            return d, "staticmethod" in decs
+        return None
+
+    def inline_helper(self, fd: ast.FunctionDef, n: ast.Call, st: State, self_obj: Optional[V] = None) -> V:
         depth = getattr(self, "_inline_depth", 0)
         if depth > 3:
             raise Unsupported(f"helper {fd.name}: inlining too deep (recursive?)", n)
         params = [a.arg for a in fd.args.args]
+        if self_obj is not None:
+            params = params[1:]
         dflt = [None] * (len(params) - len(fd.args.defaults)) + list(fd.args.defaults)
         vals: dict[str, V] = {}
         for p, a in zip(params, n.args):
@@ -2068,11 +2092,13 @@ class Engine:
                     raise Unsupported(f"helper {fd.name}: missing argument {p}", n)
                 vals[p] = self.expr(d, State())
         for a in fd.args.args:   # coerce to annotated types where possible (empty literals etc.)
-            if a.annotation is not None:
+            if a.annotation is not None and a.arg in vals:
                 try:
                     vals[a.arg] = self.coerce(vals[a.arg], self.tenv.parse(a.annotation))
                 except Unsupported:
                     pass
+        if self_obj is not None:
+            vals[fd.args.args[0].arg] = self_obj
         saved_env = st.env
         st.env = dict(vals)      # the helper sees only its parameters (plus module-level names resolved as usual)
         self._inline_depth = depth + 1
